@@ -72,3 +72,11 @@ Example doc_row3 : option_map mask (matrix_line 64 3 16) = Some 13575.       (* 
 Proof. vm_compute. reflexivity. Qed.
 Example doc_row3_full : option_map (fun l => mask l) (matrix_line_full 64 3 16) = Some 13607.  (* force-full-r doc example adds D6 *)
 Proof. vm_compute. reflexivity. Qed.
+
+(* the force-full-r build of fragmentation.rs: same u32 seed arithmetic, redraw on a repeated position *)
+Definition impl_new_full (fuel : nat) (cap_n cap_m : N) : option (list N) :=
+  let m := if is_pow2 cap_m then 1 else 0 in
+  full_fill fuel (N.to_nat (N.shiftr cap_m 1)) (1 + u32 (1001 * cap_n)) cap_m (cap_m + m) [].
+(* driver-facing: the three generators as bit masks *)
+Definition rows_for (ffr : bool) (fuel : nat) (M n : N) : option (list N) * option (list N) :=
+  ((if ffr then impl_new_full fuel n M else impl_new fuel n M), impl_lfdbt fuel n M).
